@@ -1,5 +1,162 @@
 package c07
 
-import "verif/internal/h"
+import (
+	"fmt"
+	"os"
+	"strings"
 
-func crashProp(c Case, x *h.Ctx) *h.Violation { return nil }
+	"verif/internal/crash"
+	"verif/internal/fsmodel"
+	"verif/internal/h"
+	"verif/internal/prog"
+)
+
+// crashProp is the crash leg: the same kind of program is executed by the child runner under strace and every
+// system-call boundary is judged.
+func crashProp(c Case, x *h.Ctx) *h.Violation {
+	x.Label("leg=crash")
+	p := &prog.Program{Kind: "wal", Wal: &prog.WalOpts{MaxSize: c.MaxSize, WBuf: c.WBuf, Comp: c.Comp}}
+	for _, s := range c.Steps {
+		switch s.Op {
+		case "append", "sync":
+			p.WalSteps = append(p.WalSteps, prog.Step{Op: s.Op, Rec: s.Rec})
+		case "rotate":
+			p.WalSteps = append(p.WalSteps, prog.Step{Op: "walrotate"})
+		}
+	}
+	ops := p.Ops()
+	work, done := h.Scratch("c07crash")
+	defer done()
+	var tr *crash.Trace
+	var err error
+	selfCheck := ""
+	if c.TraceFile != "" {
+		tr, err = crash.Load(p, c.TraceFile, c.TraceRoot, c.TraceAck)
+		if err != nil {
+			panic(h.Infra{Msg: fmt.Sprintf("cannot load trace %s: %v", c.TraceFile, err)})
+		}
+	} else {
+		tr, err = crash.Run(p, work, 1<<20, nil)
+		if err != nil {
+			x.Discard("trace-failed: " + fmt.Sprintf("%.150s", err.Error()))
+			return nil
+		}
+		selfCheck = tr.Root
+		if tr.Exit != 0 {
+			return h.V("wal/crash/child-died", "the traced child exited with status %d: %.800s", tr.Exit, tr.Stderr)
+		}
+	}
+	// records of the append operations, by op index
+	recOf := map[int][]byte{}
+	for _, op := range ops {
+		if op.Kind == "append" || op.Kind == "sync" {
+			recOf[op.Index] = op.Step.Rec.Bytes()
+		}
+	}
+	var viol *h.Violation
+	report := func(v *h.Violation, seq int) {
+		if viol != nil {
+			return
+		}
+		viol = v
+		if c.TraceFile == "" {
+			rc := c
+			rc.TraceFile, rc.TraceRoot, rc.TraceAck, rc.Only = crash.SaveTrace("C07", tr), tr.Root, tr.Ack, seq
+			viol.ReplayCase = rc
+		}
+	}
+	// system-call order: a synchronous append writes to the log file and fsyncs it before it returns
+	cur, lastWrite, lastSync, n := -1, -1, -1, 0
+	tr.OnEvent = func(a fsmodel.Applied, ev fsmodel.Event, st *crash.OpState) {
+		n++
+		if a.Op == "marker" {
+			for _, ln := range strings.Split(strings.TrimSpace(a.Marker), "\n") {
+				var idx int
+				if _, err := fmt.Sscanf(ln, "call %d", &idx); err == nil && idx < len(ops) && ops[idx].Kind == "sync" {
+					cur, lastWrite, lastSync = idx, -1, -1
+				}
+				if _, err := fmt.Sscanf(ln, "ret %d ok", &idx); err == nil && idx == cur {
+					if lastWrite < 0 || lastSync < lastWrite {
+						report(h.V("wal/crash/sync-without-fsync", "AppendSync (operation %d) returned, but between its call and return there was no write to the log file followed by an fsync of it (last write event %d, last fsync event %d)", idx, lastWrite, lastSync), n)
+					}
+					x.Label("sync-append-write-then-fsync-checked")
+					cur = -1
+				}
+			}
+			return
+		}
+		if cur >= 0 && strings.HasSuffix(a.Path, ".wal") {
+			if a.Op == "write" {
+				lastWrite = n
+			}
+			if a.Op == "fsync" {
+				lastSync = n
+			}
+		}
+	}
+	files := 0
+	_, werr := tr.Walk(nil, selfCheck, -1, func(b *crash.Boundary, fs *fsmodel.FS) error {
+		if viol != nil || (c.Only > 0 && b.Seq != c.Only) {
+			return nil
+		}
+		// the appended sequence: returned appends followed by the in-flight one; `must`: everything up to the last returned sync / rotate / close
+		var seq [][]byte
+		must := 0
+		for _, op := range ops {
+			if !b.Ops.Called[op.Index] {
+				break
+			}
+			if r, ok := recOf[op.Index]; ok {
+				seq = append(seq, r)
+			}
+			if b.Ops.Returned[op.Index] && (op.Kind == "sync" || op.Kind == "walrotate" || op.Kind == "close") {
+				must = len(seq)
+			}
+		}
+		inProtocol := b.Last.Changed && (b.Last.Op == "create" || (b.Last.Op == "write" && b.Last.N < 8))
+		nf := 0
+		for _, l := range fs.Listing() {
+			if strings.HasSuffix(strings.Fields(l)[0], ".wal") {
+				nf++
+			}
+		}
+		if nf > files {
+			files = nf
+		}
+		x.Sub(fmt.Sprintf("b%d", b.Seq), b.Last.Changed)
+		if inProtocol {
+			x.Label("boundary-inside-rotation-or-multi-write-record")
+		}
+		dir, err := crash.Materialize(fs, work)
+		if err != nil {
+			panic(err)
+		}
+		defer os.RemoveAll(dir)
+		o, err := Options(dir, c)
+		if err != nil {
+			panic(err)
+		}
+		got, err := ReplayAll(o)
+		if err != nil {
+			report(h.V("wal/crash/replay-failed", "replay of the image after system call #%d (%s %s) failed: %v\nimage: %s", b.Seq, b.Last.Op, b.Last.Path, err, strings.Join(fs.Listing(), ", ")), b.Seq)
+			return nil
+		}
+		if v := CheckPrefix("crash", got, seq, must); v != nil {
+			v.Msg = fmt.Sprintf("image after system call #%d (%s %s): %s\nimage: %s", b.Seq, b.Last.Op, b.Last.Path, v.Msg, strings.Join(fs.Listing(), ", "))
+			report(v, b.Seq)
+		}
+		return nil
+	})
+	if werr != nil {
+		if c.TraceFile != "" {
+			panic(werr)
+		}
+		x.Discard("emulator-self-check")
+		return nil
+	}
+	if viol != nil {
+		return viol
+	}
+	x.SetNonTrivial(files >= 2)
+	return nil
+}
